@@ -315,6 +315,21 @@ def check_source(src, name="f"):
         got += [i.offset for i in b.get_instructions(bcmap)]
     if got != [o[0] for o in orc]:
         fails.append({"kind": "graph", "signature": "function:get_instructions-wrong", "detail": repr(got)[:200]})
+    # history: the graph of a second build must not depend on what was done to the first one
+    try:
+        flow.scfg.restructure()
+    except Exception:
+        pass  # C02's business
+    try:
+        flow2 = ByteFlow.from_bytecode(fn)
+        errs2 = check_graph(orc, flow2.scfg.graph, end)
+    except Exception as e:
+        errs2 = [("second-build-exception", type(e).__name__)]
+    for err in errs2:
+        s2_ = "function:second-build:" + sig(err)
+        if s2_ not in seen:
+            seen.add(s2_)
+            fails.append({"kind": "graph", "signature": s2_, "detail": repr(err)[:300]})
     return fails, "ok"
 
 
